@@ -5,7 +5,8 @@
    No bound on nesting depth, element counts or payload lengths in any statement. *)
 From Coq Require Import List Bool Arith NArith ZArith Lia.
 Import ListNotations.
-From Supp Require Import Model.Msgpack Model.MsgpackSpec Proofs.MsgpackBytes Proofs.MsgpackProofs Proofs.MsgpackTrunc.
+From Supp Require Import Model.Msgpack Model.MsgpackSpec Proofs.MsgpackBytes Proofs.MsgpackProofs Proofs.MsgpackTrunc
+  Proofs.MsgpackSpecProofs Proofs.MsgpackSpecSound.
 Local Open Scope N_scope.
 
 (* Lossless: decoding the encoding of a well-formed value gives the value back and leaves exactly
@@ -57,6 +58,35 @@ Theorem C14_accepts_every_form : forall v b, wf v = true -> Enc v b ->
   forall rest, decode (b ++ rest) = Ok (v, rest).
 Proof. exact accepts_every_form. Qed.
 Print Assumptions C14_accepts_every_form.
+
+(* An independent decoder written from the specification reads back what the encoder wrote ... *)
+Theorem C14_spec_reads_back : forall v b, wf v = true -> encode v = Some b -> spec_decode b = Some (v, []).
+Proof. exact spec_reads_back. Qed.
+Print Assumptions C14_spec_reads_back.
+
+(* ... and what it wrote are bytes. *)
+Theorem C14_encode_bytes : forall v b, wf v = true -> encode v = Some b -> Forall (fun x => x < 256) b.
+Proof. exact encode_bytes. Qed.
+Print Assumptions C14_encode_bytes.
+
+(* The independent decoder is exactly the specification: on byte strings it accepts b as v iff Enc v b
+   (this is what lets the check validate its Python twin of Enc by running spec_decode). *)
+Theorem C14_spec_decides_enc : forall v b, Forall (fun x => x < 256) b ->
+  (spec_decode b = Some (v, []) <-> Enc v b).
+Proof. exact spec_decides_enc. Qed.
+Print Assumptions C14_spec_decides_enc.
+
+Theorem C14_spec_sound : forall bs v rest, Forall (fun x => x < 256) bs ->
+  spec_decode bs = Some (v, rest) -> exists b, bs = b ++ rest /\ Enc v b.
+Proof. exact spec_sound. Qed.
+Print Assumptions C14_spec_sound.
+
+(* The explicit fuel of the model's decoder is never exhausted, on any input whatsoever (so an
+   error of the model is always one of the codec's own), and a success consumes at least a byte. *)
+Theorem C14_decode_fuel : forall bs,
+  decode bs <> Err OutOfFuel /\ (forall v r, decode bs = Ok (v, r) -> (length r < length bs)%nat).
+Proof. intros bs. split; [apply decode_never_out_of_fuel | apply decode_consumes]. Qed.
+Print Assumptions C14_decode_fuel.
 
 (* Non-vacuity: a nested value with a tuple key, a float key, an ext and a 2^64-1 integer is
    well-formed, is encoded, and is read back; a non-minimal form of 5 is legal and accepted;
